@@ -27,6 +27,10 @@ def pivot():
         U("Blu", disabled=True),
         U("Gone", disabled=True, serialize=["gone"]),
     ], derives=d, note="(a,b,c) unit/tuple/named, serialize x2 + to_string, explicit spelling hides the identifier, disabled near-miss"))
+    S.append(EnumSpec("ViaMacro", [U("Red", serialize=["r", "red"]), U("Blue", fields=[Field("u8")], to_string="blu", serialize=["b"]),
+                                   U("Green", fields=[Field("u16", name="x")], named=True), U("Yel", aci=True, serialize=["ye"]), U("Off", disabled=True)],
+                      derives=d, macro_args=[("s", "literal", '"red"'), ("b", "literal", '"blu"'), ("t", "ty", "u16"), ("y", "literal", '"ye"')], macro_replace=True,
+                      note="the definition is the body of a macro_rules! macro: spellings arrive as $x:literal fragments, a field type as $t:ty"))
     S.append(EnumSpec("DefT", [
         U("A", serialize=["a"]), U("Other", fields=[Field("String")], default=True), U("B"),
     ], derives=d, note="(d) default variant, tuple form, declared in the middle"))
